@@ -221,6 +221,41 @@ package jen
 //@   ensures file: regpre(result)
 //@   ensures [C14] emptymaps: mapof(result.imports) == emptyImp(result) && mapof(result.hints) == emptyImp(result)
 
+//@ func NewFilePathName [C02,C06,C09,C14]
+//@   ensures [C09] fresh: fresh(result) && fresh(result.Group) && fresh(result.imports) && fresh(result.hints) && result.imports != result.hints
+//@   ensures empty: len(result.imports) == 0 && len(result.hints) == 0 && (forall p string :: !has(result.imports, p) && !has(result.hints, p) && result.imports[p] == mk_importdef("", false) && result.hints[p] == mk_importdef("", false))
+//@   ensures [C06] fields: result.name == packageName && result.path == packagePath && result.PackagePrefix == "" && result.CanonicalPath == "" && !result.NoFormat
+//@       && len(result.headers) == 0 && len(result.comments) == 0 && len(result.cgoPreamble) == 0
+//@   ensures group: result.Group.multi && result.Group.open == "" && result.Group.close == "" && result.Group.separator == "" && result.Group.name == "" && len(result.Group.items) == 0
+//@   ensures file: regpre(result)
+
+//@ func NewFilePath [C02,C05,C06,C09,C14]
+//@   ensures [C09] fresh: fresh(result) && fresh(result.Group) && fresh(result.imports) && fresh(result.hints) && result.imports != result.hints
+//@   ensures empty: len(result.imports) == 0 && len(result.hints) == 0 && (forall p string :: !has(result.imports, p) && !has(result.hints, p) && result.imports[p] == mk_importdef("", false) && result.hints[p] == mk_importdef("", false))
+//@   ensures [C06] fields: result.path == packagePath && result.PackagePrefix == "" && result.CanonicalPath == "" && !result.NoFormat
+//@       && len(result.headers) == 0 && len(result.comments) == 0 && len(result.cgoPreamble) == 0
+//@   ensures [C05] name: identLower(result.name)
+//@   ensures group: result.Group.multi && result.Group.open == "" && result.Group.close == "" && result.Group.separator == "" && result.Group.name == "" && len(result.Group.items) == 0
+//@   ensures file: regpre(result)
+
+//@ func (*File).HeaderComment [C09,C15]
+//@   requires f != nil
+//@   modifies f.headers, tail(f.headers)
+//@   ensures [C15] appended: len(f.headers) == old(len(f.headers)) + 1 && f.headers[old(len(f.headers))] == comment
+//@       && (forall j int :: { f.headers[j] } (0 <= j && j < old(len(f.headers))) ==> f.headers[j] == old(f.headers[j]))
+
+//@ func (*File).PackageComment [C09,C15]
+//@   requires f != nil
+//@   modifies f.comments, tail(f.comments)
+//@   ensures [C15] appended: len(f.comments) == old(len(f.comments)) + 1 && f.comments[old(len(f.comments))] == comment
+//@       && (forall j int :: { f.comments[j] } (0 <= j && j < old(len(f.comments))) ==> f.comments[j] == old(f.comments[j]))
+
+//@ func (*File).CgoPreamble [C09,C19]
+//@   requires f != nil
+//@   modifies f.cgoPreamble, tail(f.cgoPreamble)
+//@   ensures [C19] appended: len(f.cgoPreamble) == old(len(f.cgoPreamble)) + 1 && f.cgoPreamble[old(len(f.cgoPreamble))] == comment
+//@       && (forall j int :: { f.cgoPreamble[j] } (0 <= j && j < old(len(f.cgoPreamble))) ==> f.cgoPreamble[j] == old(f.cgoPreamble[j]))
+
 //@ func (*Statement).RenderWithFile [C02,C07,C08,C09,C10,C14]
 //@   unfold none
 //@   requires s != nil && regpre(file) && writer != 0
@@ -520,6 +555,14 @@ package jen
 //@   ensures [C14,C20] self: result == s
 //@   ensures [C14,C20] appended: len(*s) == old(len(*s)) + 1 && (forall j int :: { (*s)[j] } (0 <= j && j < old(len(*s))) ==> (*s)[j] == old((*s)[j]))
 //@   ensures [C14,C15] item: (*s)[old(len(*s))] == C_comment(mk_comment(str))
+//@   ensures [C20] backing: len(*s) <= cap(*s) && (old(len(*s)) + 1 <= old(cap(*s)) ? (*s).arr == old((*s).arr) && cap(*s) == old(cap(*s)) : fresh((*s).arr))
+
+//@ func (*Statement).Commentf [C14,C15,C20,C09]
+//@   requires s != nil
+//@   modifies *s, tail(*s)
+//@   ensures [C14,C20] self: result == s
+//@   ensures [C14,C20] appended: len(*s) == old(len(*s)) + 1 && (forall j int :: { (*s)[j] } (0 <= j && j < old(len(*s))) ==> (*s)[j] == old((*s)[j]))
+//@   ensures [C14,C15] item: is_C_comment((*s)[old(len(*s))])
 //@   ensures [C20] backing: len(*s) <= cap(*s) && (old(len(*s)) + 1 <= old(cap(*s)) ? (*s).arr == old((*s).arr) && cap(*s) == old(cap(*s)) : fresh((*s).arr))
 
 //@ func (*Statement).Do [C14,C09]
